@@ -349,13 +349,14 @@ type Action struct {
 
 type Gate struct {
 	tikv.Client
-	w      *World
-	name   string
-	dead   atomic.Bool
-	epoch  int                                        // scenario this gate belongs to; a late RPC of an earlier scenario is refused
-	n      int64                                      // RPCs of this client seen so far (protocol commands only)
-	policy func(idx int, req *tikvrpc.Request) Action // called once per arriving RPC, under schedMu
-	faults []string                                   // injected faults, for the evidence
+	w        *World
+	name     string
+	dead     atomic.Bool
+	blackout atomic.Bool                                // every further protocol request of this client is dropped (the client keeps running)
+	epoch    int                                        // scenario this gate belongs to; a late RPC of an earlier scenario is refused
+	n        int64                                      // RPCs of this client seen so far (protocol commands only)
+	policy   func(idx int, req *tikvrpc.Request) Action // called once per arriving RPC, under schedMu
+	faults   []string                                   // injected faults, for the evidence
 }
 
 var errCrashed = errors.New("verif: client crashed")
@@ -394,6 +395,9 @@ func (g *Gate) SendRequest(ctx context.Context, addr string, req *tikvrpc.Reques
 	act := Action{}
 	if g.policy != nil {
 		act = g.policy(idx, req)
+	}
+	if g.blackout.Load() && act.kind == "" {
+		act = Action{kind: "drop_req"}
 	}
 	var p *parkedRPC
 	if w.sched {
